@@ -298,7 +298,7 @@ fn gen_case<const N: usize>(id: u64, r: &mut Rng, thorough: bool, out: &mut Out)
     let keep_case = with_runner::<N, _>(|run| {
         let len = if thorough { r.range(10, 140) } else { r.range(8, 45) } as usize;
         // time base: mostly small, rarely close to the end of time (checked_add overflow paths)
-        let mut t: u64 = if r.chance(1, 40) { u64::MAX - r.range(0, 200) * HZ } else { r.range(0, 50) * HZ };
+        let mut t: u64 = if r.chance(1, 40) { u64::MAX - 1 - r.range(0, 200) * HZ } else { r.range(0, 50) * HZ };
         let mut evwm: u64 = if r.chance(1, 3) { r.range(0, 5) } else { 0 };
         let mut n_ops = 0usize;
         let mut saw_flight_change = false;
@@ -327,7 +327,8 @@ fn gen_case<const N: usize>(id: u64, r: &mut Rng, thorough: bool, out: &mut Out)
                     8 => r.range(0, 700) * HZ,
                     _ => r.range(0, 3 * HZ),
                 };
-                t = t.saturating_add(dt);
+                // `Instant::MAX` itself is the "not yet primed" sentinel, never a real instant
+                t = t.saturating_add(dt).min(u64::MAX - 1);
             }
             if r.chance(1, 6) {
                 evwm += r.range(1, 3);
@@ -445,7 +446,7 @@ fn gen_case<const N: usize>(id: u64, r: &mut Rng, thorough: bool, out: &mut Out)
         }
         for _ in 0..2 {
             step(run, out, "purge".to_string());
-            t = t.saturating_add(*r.pick(&[HZ, 2 * HZ, 5 * HZ, 31 * HZ]));
+            t = t.saturating_add(*r.pick(&[HZ, 2 * HZ, 5 * HZ, 31 * HZ])).min(u64::MAX - 1);
             step(run, out, format!("nra {}", evwm));
             for _ in 0..N + 1 {
                 let o = step(run, out, format!("rep {} {}", t, evwm));
